@@ -61,7 +61,9 @@ WANTED = [("sbdfstring.c", "sbdf_convert_utf8_to_iso88591"), ("sbdfstring.c", "s
           # goto end (the common clean-up) as a loop that runs once
           ("columnslice.c", "sbdf_cs_read"),
           # p[i] on a char* flag array, p->arr + i as an out-cell
-          ("tableslice.c", "sbdf_ts_read")]
+          ("tableslice.c", "sbdf_ts_read"),
+          # calloc(n, 1) as a zeroed byte buffer; &slice (a local struct pointer) as an out-cell
+          ("tableslice.c", "sbdf_ts_skip")]
 PARTIAL = {"sbdf_read_valuearray_int"}          # untranslatable statements of these become SFault instead of failing the function
 IN_PARTIAL = [False]
 GLOBAL_VT = {}          # file-level sbdf_valuetype variables that are initialised with a literal and never written: name -> id
@@ -141,6 +143,8 @@ def call_stmt(ret, n, scope, value_args_only=False):
                 if b.get("kind") == "DeclRefExpr" and b.get("referencedDecl", {}).get("kind") == "ParmVarDecl" and qt(b).replace(" ", "") == "sbdf_valuetype*":
                     nm = b["referencedDecl"]["name"]; OUTPARAMS.add("*" + nm); cells.append("*" + nm); args.append('(AFwd "%s")' % nm); continue
             v = var_of(t, scope)
+            if v is not None and struct_of_ptr(qt(t)) and is_pp(qt(unparen(a))) and norm_t(qt(unparen(a))) != "void**":
+                cells.append(v); args.append('(AAddr "%s")' % v); continue          # &p with p a local struct pointer, handed to an out-cell parameter
             if v is None or qt(t) not in ("int", "sbdf_valuetype"): raise Untranslatable("address of something that is not an int local")
             cells.append(v); args.append('(AAddr "%s")' % v); continue
         if u.get("kind") == "DeclRefExpr" and u.get("referencedDecl", {}).get("kind") == "ParmVarDecl" and (qt(u).replace(" ", "") in CELLPTR or (is_pp(qt(u)) and norm_t(qt(u)) != "void**" and norm_t(qt(unparen(a))) != "void**")):
@@ -428,6 +432,12 @@ def expr(n, scope):
             a1, a2 = n["inner"][1], n["inner"][2]
             if sizeof_t(a1) is not None: a1, a2 = a2, a1
             t = sizeof_t(a2)
+            if t is None and strip_casts(a2).get("kind") == "IntegerLiteral" and int(strip_casts(a2)["value"]) == 1:
+                # calloc(n, 1): a zeroed byte buffer in the caller's memory (assigned to a char pointer)
+                e_, f_ = expr(a1, scope)
+                if f_.w or f_.io: raise Untranslatable("calloc count with side effects")
+                f_.io = True
+                return "(ECallocBytes %s)" % e_, f_
             if t is None: raise Untranslatable("calloc without a sizeof")
             if norm_t(t) in STRUCTS:
                 u = strip_casts(a1)
